@@ -23,6 +23,8 @@ CAP = 1 << 16
 UNIVERSES = {
     "prefix-siblings": ["pkg", "pkg.a", "pkg.a.x", "pkg.ab", "pkg.a_b"],
     "nested": ["r", "r.m", "r.m.n", "r.m.n.o", "r.mn"],
+    # module names that differ from an aliased name only where that name has a dot (the dot read as a wildcard)
+    "look-alike": ["p", "p.a", "p.a.b", "p.a_b", "p_a", "p_a.b"],
     "two-roots": ["a", "a.b", "ab", "ab.b", "b"],
     "deep-prefix": ["s", "s.t", "s.t.u", "s.t.uv", "s.tu", "s.t.u.w"],
 }
@@ -34,7 +36,7 @@ IMPLICIT = {
     "externals": {"listed": ["app", "app.core", "app.web"], "edges": [("app.web", "os.path"), ("app.core", "app.web")], "level_limit": None, "extra": ["os", "os.path"]},
 }
 ALIASES = ["A", "", "x.y", "a+", "(", "pkg", ".", "Zz"]
-MISSING = {"prefix-siblings": "pkg.abc", "nested": "r.m.", "two-roots": "a.", "deep-prefix": "s.t.u.v"}
+MISSING = {"look-alike": "p.a.c", "prefix-siblings": "pkg.abc", "nested": "r.m.", "two-roots": "a.", "deep-prefix": "s.t.u.v"}
 TOO_DEEP = {"level-limited": "r.m.n.o"}
 AX = ("AX-OBJECT",)
 
@@ -182,7 +184,7 @@ def keys_of(u: str) -> list:
 
 def instances(tier: str) -> list[dict]:
     out = [{"part": "kernel", "name": k, "tier": tier} for k in kernel_names("vf.kernels.k17")]
-    us = (["prefix-siblings", "nested"] if tier == "quick" else list(UNIVERSES)) + list(IMPLICIT)
+    us = (["prefix-siblings", "nested", "look-alike"] if tier == "quick" else list(UNIVERSES)) + list(IMPLICIT)
     out += [{"part": "visualize", "universe": u} for u in us]
     out += [{"part": "history", "universe": u} for u in (["prefix-siblings"] if tier == "quick" else ["prefix-siblings", "nested", "level-limited"])]
     return out
